@@ -360,7 +360,43 @@ pub fn trusted_paths_ground() -> EvalResult {
                 let got_rems: Vec<_> = rems.iter().map(|(id, _)| hex::encode(id)).collect();
                 if got_adds != want_adds { Err(format!("additions differ: additions_and_removals = {got_adds:?}, validated conditions = {want_adds:?}")) }
                 else if got_rems != want_rems { Err(format!("removals differ: {got_rems:?} vs {want_rems:?}")) }
-                else { Ok(()) }
+                else {
+                    // the recovered coin spends: spend exactly the validated coins, and a bundle made of them validates to the
+                    // same created coins; SpendBundle::additions lists the same coins
+                    use chia_consensus::run_block_generator::get_coinspends_for_trusted_block;
+                    use chia_consensus::spendbundle_conditions::run_spendbundle;
+                    use chia_protocol::{Program, SpendBundle};
+                    match get_coinspends_for_trusted_block(&TEST_CONSTANTS, &Program::new(prog.clone().into()), blocks, flags) {
+                        Err(e) => Err(format!("full validation accepts but get_coinspends_for_trusted_block fails: {e:?}")),
+                        Ok(css) => {
+                            let ids: Vec<String> = css.iter().map(|c| hex::encode(c.coin.coin_id())).collect();
+                            if ids != want_rems { Err(format!("recovered coin spends {ids:?} are not the validated removals {want_rems:?}")) } else {
+                                let bundle = SpendBundle::new(css, Signature::default());
+                                let mut a3 = chia_consensus::allocator::make_allocator(ConsensusFlags::LIMIT_HEAP);
+                                match run_spendbundle(&mut a3, &bundle, 11_000_000_000, flags, &TEST_CONSTANTS) {
+                                    Err(e) => Err(format!("a bundle of the recovered coin spends is rejected: {e:?}")),
+                                    Ok((c3, _)) => {
+                                        let o3 = OwnedSpendBundleConditions::from(&a3, c3);
+                                        let mut adds3 = vec![];
+                                        for s in &o3.spends { for (ph, am, hint) in &s.create_coin { adds3.push((hex::encode(ph), *am, hint.as_ref().map(|h| hex::encode(h.as_ref())))); } }
+                                        let mut w = want_adds.clone(); w.sort(); adds3.sort();
+                                        if adds3 != w { Err(format!("a bundle of the recovered coin spends creates {adds3:?}, the block {w:?}")) } else {
+                                            match bundle.additions() {
+                                                Err(e) => Err(format!("SpendBundle::additions fails on the recovered bundle: {e:?}")),
+                                                Ok(coins) => {
+                                                    let mut got: Vec<(String, u64)> = coins.iter().map(|c| (hex::encode(c.puzzle_hash), c.amount)).collect();
+                                                    let mut want: Vec<(String, u64)> = w.iter().map(|x| (x.0.clone(), x.1)).collect();
+                                                    got.sort(); want.sort();
+                                                    if got != want { Err(format!("SpendBundle::additions = {got:?}, validated conditions = {want:?}")) } else { Ok(()) }
+                                                }
+                                            }
+                                        }
+                                    }
+                                }
+                            }
+                        }
+                    }
+                }
             }
             (Err(_), _) => Ok(()), // not a block full validation accepts: outside the statement
             (Ok(_), Err(e)) => Err(format!("full validation accepts but additions_and_removals fails: {e:?}")),
